@@ -36,6 +36,7 @@ type boxStats struct {
 	FlagTrans      map[string]int `json:"transitions_with"`
 	FlagStates     map[string]int `json:"states_first_reached_with"`
 	EventCounts    map[string]int `json:"transitions_by_event"`
+	Sim            simStats       `json:"library_executions"`
 	WallS          float64        `json:"wall_s"`
 	Stopped        string         `json:"stopped,omitempty"`
 }
@@ -124,7 +125,7 @@ func (co *coord) runBox(bi int, deadline time.Time) *boxStats {
 	start := time.Now()
 	defer func() { st.WallS = time.Since(start).Seconds() }()
 
-	root := newCluster(&box.Cfg, &box.Bud, box.Mode == "B")
+	root := newCluster(newSim(false), &box.Cfg, &box.Bud, box.Mode == "B")
 	h0, _ := root.key()
 	tree := []stateRec{{hash: h0}}
 	seen := map[uint64]uint8{h0: 0}
@@ -133,17 +134,18 @@ func (co *coord) runBox(bi int, deadline time.Time) *boxStats {
 	aborted := false
 	timedOut := false
 
-	addState := func(parent uint32, sc succRec, dev uint8) uint32 {
+	// addState appends a tree node; the caller has already decided it is new (or cheaper).
+	addState := func(parent uint32, rc *rec) uint32 {
 		id := uint32(len(tree))
 		d := tree[parent].depth + 1
-		tree = append(tree, stateRec{parent: parent, ev: sc.ev, hash: sc.hash, depth: d})
+		tree = append(tree, stateRec{parent: parent, ev: rc.ev, hash: rc.hash, depth: d})
 		st.States++
 		if int(d) > st.MaxDepth {
 			st.MaxDepth = int(d)
 			deepest = id
 		}
 		for b := 0; b < fFlags; b++ {
-			if sc.flags&(1<<b) != 0 {
+			if rc.flags&(1<<b) != 0 {
 				st.FlagStates[flagNames[b]]++
 				if _, ok := firstWith[b]; !ok {
 					firstWith[b] = id
@@ -152,7 +154,7 @@ func (co *coord) runBox(bi int, deadline time.Time) *boxStats {
 		}
 		return id
 	}
-	mkTasks := func(ids []uint32, devOf func(uint32) uint8, batch int) [][]byte {
+	mkTasks := func(ids []uint32, dev uint8, batch int) [][]byte {
 		var tasks [][]byte
 		for i := 0; i < len(ids); i += batch {
 			j := i + batch
@@ -161,21 +163,28 @@ func (co *coord) runBox(bi int, deadline time.Time) *boxStats {
 			}
 			sts := make([]taskState, 0, j-i)
 			for _, id := range ids[i:j] {
-				sts = append(sts, taskState{id: id, dev: devOf(id), hash: tree[id].hash, path: pathOf(tree, id)})
+				sts = append(sts, taskState{id: id, dev: dev, hash: tree[id].hash, path: pathOf(tree, id)})
 			}
 			tasks = append(tasks, encodeTask(bi, co.tier, deadline, sts))
 		}
 		return tasks
 	}
-	// common part of result handling; returns the expanded records
-	handle := func(out []byte, crash *pool.Crash) []expandRes {
+	const dead = ^uint32(0)
+	// handle processes one worker result. admit decides for a transition (record) whether its
+	// target is a new state; it returns the tree id or `dead`.
+	handle := func(out []byte, crash *pool.Crash, dev uint8, admit func(parent uint32, rc *rec, nd uint8) uint32, leaf func(id uint32, rc *rec, nd uint8)) {
 		if crash != nil {
 			co.internal = append(co.internal, fmt.Sprintf("box %s: worker %s: %s", box.ID, crash.Kind, firstLine(crash.Detail)))
 			aborted = true
 			os.WriteFile(abortFile(), nil, 0o644)
-			return nil
+			return
 		}
-		res, viols := decodeResult(out)
+		res, recs, viols, ss := decodeResult(out)
+		st.Sim.Execs += ss.Execs
+		st.Sim.Hits += ss.Hits
+		st.Sim.Thaws += ss.Thaws
+		st.Sim.ThawFeeds += ss.ThawFeeds
+		st.Sim.Validated += ss.Validated
 		for _, v := range viols {
 			co.noteViol(box, v)
 			st.Poisoned++
@@ -196,57 +205,89 @@ func (co *coord) runBox(bi int, deadline time.Time) *boxStats {
 				os.WriteFile(abortFile(), nil, 0o644)
 			}
 			st.Transitions += int(res[i].trans)
-			for _, sc := range res[i].succs {
-				st.EventCounts[evNames[sc.ev.K]]++
-				for b := 0; b < fFlags; b++ {
-					if sc.flags&(1<<b) != 0 {
-						st.FlagTrans[flagNames[b]]++
-					}
+		}
+		ids := make([]uint32, len(recs))
+		devs := make([]uint8, len(recs))
+		for i := range recs {
+			rc := &recs[i]
+			st.EventCounts[evNames[rc.ev.K]]++
+			for b := 0; b < fFlags; b++ {
+				if rc.flags&(1<<b) != 0 {
+					st.FlagTrans[flagNames[b]]++
 				}
 			}
+			var parent uint32
+			pd := dev
+			if rc.parent < 0 {
+				parent = res[-(rc.parent + 1)].id
+			} else {
+				parent = ids[rc.parent]
+				pd = devs[rc.parent]
+			}
+			if parent == dead {
+				ids[i] = dead
+				continue
+			}
+			nd := pd + rc.cost
+			devs[i] = nd
+			ids[i] = admit(parent, rc, nd)
+			if ids[i] != dead && !rc.expanded {
+				leaf(ids[i], rc, nd)
+			}
 		}
-		return res
 	}
 
 	st.States = 1
+	// One pool.Map call per box: the worker processes (and their memos) live for the whole
+	// box; level / layer discipline is enforced here by counting outstanding tasks.
+	pending := 0
+	emit := func(ts [][]byte) [][]byte { pending += len(ts); return ts }
 	if box.Mode == "A" {
+		level := 0
 		frontier := []uint32{0}
+		var next []uint32
 		st.StatesPerLevel = append(st.StatesPerLevel, 1)
-		for depth := 0; depth < box.Depth && len(frontier) > 0; depth++ {
-			var next []uint32
-			batch := 48
-			if len(frontier) < 16*48 {
-				batch = len(frontier)/16 + 1
+		startLevel := func() [][]byte {
+			batch := 32
+			if len(frontier) < 32*32 {
+				batch = len(frontier)/32 + 1
 			}
-			co.pool.Map(mkTasks(frontier, func(uint32) uint8 { return 0 }, batch), func(_ []byte, out []byte, crash *pool.Crash) [][]byte {
-				for _, r := range handle(out, crash) {
-					for _, sc := range r.succs {
-						if _, ok := seen[sc.hash]; ok {
-							continue
-						}
-						seen[sc.hash] = 0
-						next = append(next, addState(r.id, sc, 0))
-					}
-				}
-				return nil
-			})
-			if aborted || timedOut {
-				break
-			}
-			st.CompletedDepth = depth + 1
-			st.StatesPerLevel = append(st.StatesPerLevel, len(next))
-			frontier = next
-			if len(next) == 0 {
-				st.Complete = true // the whole reachable space inside the budgets is closed
-			}
+			return emit(mkTasks(frontier, 0, batch))
 		}
+		co.pool.Map(startLevel(), func(_ []byte, out []byte, crash *pool.Crash) [][]byte {
+			pending--
+			handle(out, crash, 0, func(parent uint32, rc *rec, nd uint8) uint32 {
+				if _, ok := seen[rc.hash]; ok {
+					return dead
+				}
+				seen[rc.hash] = 0
+				return addState(parent, rc)
+			}, func(id uint32, rc *rec, nd uint8) { next = append(next, id) })
+			if aborted || timedOut || pending > 0 {
+				return nil
+			}
+			level++
+			st.CompletedDepth = level
+			st.StatesPerLevel = append(st.StatesPerLevel, len(next))
+			frontier, next = next, nil
+			if len(frontier) == 0 {
+				st.Complete = true // the whole reachable space inside the budgets is closed
+				return nil
+			}
+			if level >= box.Depth {
+				return nil
+			}
+			return startLevel()
+		})
 		if st.CompletedDepth == box.Depth {
 			st.Complete = true
 		}
 	} else {
+		d := 0
 		layer := []uint32{0}
-		for d := 0; d <= box.MaxDev && len(layer) > 0; d++ {
-			var nextLayer []uint32
+		var nextLayer []uint32
+		inLayer := 0
+		startLayer := func() [][]byte {
 			// drop seeds that a cheaper path has reached in the meantime
 			live := layer[:0]
 			for _, id := range layer {
@@ -254,41 +295,56 @@ func (co *coord) runBox(bi int, deadline time.Time) *boxStats {
 					live = append(live, id)
 				}
 			}
-			inLayer := len(live)
-			co.pool.Map(mkTasks(live, func(id uint32) uint8 { return uint8(d) }, 8), func(_ []byte, out []byte, crash *pool.Crash) [][]byte {
-				var more []uint32
-				for _, r := range handle(out, crash) {
-					for _, sc := range r.succs {
-						nd := uint8(d) + sc.cost
-						if old, ok := seen[sc.hash]; ok {
-							if old <= nd {
-								continue
-							}
-							st.States-- // reached again with fewer deviations: same state, re-expanded
-						}
-						seen[sc.hash] = nd
-						id := addState(r.id, sc, nd)
-						if sc.cost == 0 {
-							more = append(more, id)
-							inLayer++
-						} else {
-							nextLayer = append(nextLayer, id)
-						}
+			inLayer = len(live)
+			return emit(mkTasks(live, uint8(d), 4))
+		}
+		co.pool.Map(startLayer(), func(_ []byte, out []byte, crash *pool.Crash) [][]byte {
+			pending--
+			var more []uint32
+			handle(out, crash, uint8(d), func(parent uint32, rc *rec, nd uint8) uint32 {
+				if old, ok := seen[rc.hash]; ok {
+					if old <= nd {
+						return dead
 					}
+					st.States-- // reached again with fewer deviations: same state, re-expanded
 				}
-				if aborted || timedOut || len(more) == 0 {
-					return nil
+				seen[rc.hash] = nd
+				if nd == uint8(d) {
+					inLayer++
 				}
-				return mkTasks(more, func(uint32) uint8 { return uint8(d) }, 8)
+				return addState(parent, rc)
+			}, func(id uint32, rc *rec, nd uint8) {
+				if nd == uint8(d) {
+					more = append(more, id)
+				} else if int(nd) <= box.MaxDev {
+					nextLayer = append(nextLayer, id)
+				}
 			})
 			if aborted || timedOut {
-				break
+				return nil
 			}
-			st.CompletedDev = d
-			st.StatesPerDev = append(st.StatesPerDev, inLayer)
-			layer = nextLayer
-		}
-		if st.CompletedDev == box.MaxDev {
+			var tasks [][]byte
+			if len(more) > 0 {
+				tasks = emit(mkTasks(more, uint8(d), 4))
+			}
+			for pending == 0 {
+				// layer d is closed under free continuations
+				st.CompletedDev = d
+				st.StatesPerDev = append(st.StatesPerDev, inLayer)
+				d++
+				layer, nextLayer = nextLayer, nil
+				if d > box.MaxDev {
+					break
+				}
+				if len(layer) == 0 {
+					st.Complete = true
+					break
+				}
+				tasks = startLayer()
+			}
+			return tasks
+		})
+		if st.CompletedDev >= box.MaxDev {
 			st.Complete = true
 		}
 	}
